@@ -10,7 +10,7 @@ from ..core import Failure
 from ..model import MP, GQ, cval, simplify, mp_close
 
 ID = "C02"
-BUDGET = {"quick": 700, "thorough": 2500}
+BUDGET = {"quick": 900, "thorough": 2500}
 TECHNIQUE = 'Hypothesis-generated (polynomial, argument assignment) pairs vs exact model evaluation/substitution; staged-evaluation and spelling metamorphic relations'
 LEVEL_TEXT = 'Full, partial, positional/keyword/None assignments with Python numbers, numpy scalars of every width, broadcasting arrays and polynomial arguments are evaluated in the exact model and compared (shape rule, type rule, values); error cases must raise TypeError.'
 FUZZ_RUNS = {"thorough": 3000}  # atheris/libFuzzer campaign over the same strategy and oracle
@@ -27,7 +27,7 @@ RULE = (
     "with non-zero coefficient and its value is not 0 or 1."
 )
 ASSUMPTIONS = [
-    "narrow numpy carriers get values whose exact result stays below 2**31; Python ints keep the exact result below 2**62 (else the case is discarded and counted)",
+    "integer carriers of any width and Python ints keep the exact result below 2**62 (else the case is discarded and counted); float16/float32 carriers get small dyadic values whose powers are exact in that width",
     "a None placeholder combined with a keyword for the same name is not generated (statement leaves it open)",
     "a partial evaluation that happens to be constant may be an ndarray or a polynomial",
     "float comparison tolerance 1e-9 * max(1, magnitude)",
@@ -59,9 +59,11 @@ def value_st(draw, target, other_names, allow_poly=True):
         if dt == "bool":
             v = draw(st.integers(0, 1))
         elif dt.startswith("uint"):
-            v = draw(st.one_of(st.integers(0, 9), st.sampled_from([200, 255, 100, 17])))
+            big = {"uint8": [200, 255], "uint16": [300, 65535], "uint32": [70000, 65536, 100000], "uint64": [70000]}[dt]
+            v = draw(st.one_of(st.integers(0, 9), st.sampled_from([100, 17] + big)))
         elif dt.startswith("int"):
-            v = draw(st.one_of(st.integers(-9, 9), st.sampled_from([100, -100, 127, -128, 50])))
+            big = {"int8": [127, -128], "int16": [300, -32768], "int32": [70000, -65537], "int64": [70000]}[dt]
+            v = draw(st.one_of(st.integers(-9, 9), st.sampled_from([100, -100, 50] + big)))
         elif dt.startswith("float"):
             v = draw(st.integers(-8, 8)) / 4.0
         else:
@@ -223,7 +225,9 @@ def check_case(case, ctx):
     narrow = any(s["val"] and s["val"]["t"] in ("np", "array", "list") and
                  s["val"].get("dtype") not in ("int64", "uint64", "float64", "complex128", None)
                  for s in case["spec"])
-    if bound >= 2 ** 62 or (narrow and bound >= 2 ** 31):
+    # integer carriers of every width are widened by call(), so only the exact result has to fit;
+    # narrow *float* carriers keep small dyadic values (their powers are computed in that width)
+    if bound >= 2 ** 62:
         ctx.discard_case("magnitude-bound")
         return []
     # also bound every intermediate power of an argument
@@ -294,6 +298,52 @@ def check_case(case, ctx):
         return fail("call-spelling-exception:" + type(err).__name__, repr(err))
     if compare(res2, cls + ",call()"):
         return fails
+
+    # carrier differential: the same integer value carried by every numeric type that can hold it
+    if full_numeric and not arg_shape:
+        scal = {}
+        for n in names:
+            e = env_models[n][()].constant()
+            scal[n] = e
+        ints = [n for n in names if isinstance(scal[n], int)]
+        if ints and all(isinstance(v, (int,)) or not isinstance(v, GQ) for v in scal.values()):
+            base_kwargs = {}
+            ok = True
+            for n in names:
+                v = scal[n]
+                if isinstance(v, int):
+                    base_kwargs[n] = v
+                elif isinstance(v, Fraction):
+                    base_kwargs[n] = float(v)
+                else:
+                    ok = False
+            if ok:
+                target_name = ints[case["stage"] % len(ints)]
+                v = scal[target_name]
+                carriers = []
+                for dt in NP_INT:
+                    info = numpy.iinfo(dt)
+                    if info.min <= v <= info.max:
+                        carriers.append(numpy.dtype(dt).type(v))
+                # float carriers only where every power of the value is exact in that width
+                col = names.index(target_name)
+                deg = max([t[0][col] for t in case["poly"]["terms"]] or [0])
+                if abs(v) ** max(deg, 1) < 2 ** 53 and bound < 2 ** 53:
+                    carriers += [float(v), numpy.float64(v)]
+                if abs(v) ** max(deg, 1) < 2 ** 24 and bound < 2 ** 24:
+                    carriers.append(numpy.float32(v))
+                carriers.append(numpy.array(v))
+                for c in carriers:
+                    kw2 = dict(base_kwargs)
+                    kw2[target_name] = c
+                    try:
+                        r2 = p(**kw2)
+                    except Exception as err:
+                        return fail("carrier-exception:%s:%s" % (type(err).__name__, type(c).__name__),
+                                    "p(%s=%r): %r" % (target_name, c, err))
+                    if compare(r2, "carrier:" + (str(c.dtype) if hasattr(c, "dtype") else type(c).__name__)):
+                        return fails
+                ctx.label("carrier-differential")
 
     # staged evaluation: supply one numeric variable first, then the rest by keyword
     supplied = [n for n in names if n in env_models]
